@@ -68,11 +68,35 @@ func c06Body(g gen.G, id uint16, v2019 bool, phone string) []byte {
 		return z(37 + g.Intn(10))
 	case 0x0102:
 		auth := phone
-		switch g.Intn(4) {
+		switch g.Intn(6) {
 		case 0:
 			auth = phone + "x"
 		case 1:
 			auth = "0" + phone
+		case 2:
+			// near misses of the right code: padded, trimmed, re-cased, one digit off (all of them are WRONG codes: result 1)
+			pads := []string{"\x00", "\x00\x00", " ", "\n", "\t", "\xff", "0"}
+			switch g.Intn(6) {
+			case 0:
+				auth = phone + pads[g.Intn(len(pads))]
+			case 1:
+				auth = pads[g.Intn(len(pads))] + phone
+			case 2:
+				if len(phone) > 1 {
+					auth = phone[:len(phone)-1]
+				}
+			case 3:
+				if len(phone) > 1 {
+					auth = phone[1:]
+				}
+			case 4:
+				b := []byte(phone)
+				i := g.Intn(len(b))
+				b[i] ^= []byte{0x01, 0x10, 0x20, 0x80}[g.Intn(4)]
+				auth = string(b)
+			default:
+				auth = ""
+			}
 		}
 		if v2019 {
 			b := append([]byte{byte(len(auth))}, auth...)
@@ -154,7 +178,16 @@ func c06Conversation(addr string, cid int, seed uint64, nreq int, mode int, wrap
 	for i := 0; i < nreq; i++ {
 		var r c06Req
 		if wrap {
-			r = c06Req{ID: 0x0002, Serial: uint16(i)}
+			// every platform serial 0..65535 (and beyond the wrap) and every request serial once, over a mix of replying message
+			// types (a reply that goes wrong only for one serial value of one message type is reached here)
+			id := []uint16{0x0002, 0x0200, 0x0002, 0x0100, 0x0704, 0x0002, 0x0102, 0x0200}[(i+i/8)%8]
+			r = c06Req{ID: id, Serial: uint16(i)}
+			if id != 0x0002 {
+				r.Body = c06Body(g, id, v2019, t.Phone)
+				if ref.ExpectedReply(id, r.Serial, r.Body, v2019, t.Phone) == nil {
+					r = c06Req{ID: 0x0002, Serial: uint16(i)} // by design unanswered body: keep one reply per request on this connection
+				}
+			}
 		} else {
 			id := core.Pick(g.Rand, c06IDs)
 			if g.Chance(1, 30) {
@@ -523,7 +556,7 @@ func c06Suite(c *core.Collector, seed uint64, batch int, conns, nreq int, wraps 
 
 func c06Worker(c *core.Collector, x *Ctx) {
 	c.Rule = "per connection a PRNG-determined sequence of terminal messages over every default-registered 0x0xxx/0x1xxx ID, response types and unsupported IDs, both header versions, request serials incl. 0 and 65535, phones with leading zeros, " +
-		"0x0102 with matching / non-matching / too-short bodies, sub-packaged requests (packet 1 first, rest shuffled); pacing: one frame per write, pipelined random segments, mixed; one connection with 66000 pipelined heartbeats (serial wrap); tail bursts (a request followed in the same write by response-type messages or by fragments 1..n-1 of an upload: its reply must arrive without further traffic). " +
+		"0x0102 with matching / non-matching / too-short bodies, sub-packaged requests (packet 1 first, rest shuffled); pacing: one frame per write, pipelined random segments, mixed; one connection with 66000 pipelined requests of mixed replying types, request serial = index (every platform serial and every request serial value, wrap included); tail bursts (a request followed in the same write by response-type messages or by fragments 1..n-1 of an upload: its reply must arrive without further traffic). " +
 		"evaluation = one request; non-trivial = request that owes a reply and whose reply was checked; distinct by hash of (connection, id, serial, body)"
 	conns := c.N(16, 64)
 	nreq := c.N(300, 3000)
